@@ -47,6 +47,8 @@ pub struct ESpec {
     pub gap_before: usize,
     pub extra_flags: u16,
     pub crc_override: Option<u32>,
+    /// name bytes of the central record when they differ from the local header's (None = same)
+    pub central_name: Option<Vec<u8>>,
 }
 
 impl Default for ESpec {
@@ -72,6 +74,7 @@ impl Default for ESpec {
             gap_before: 0,
             extra_flags: 0,
             crc_override: None,
+            central_name: None,
         }
     }
 }
@@ -86,6 +89,8 @@ pub struct Spec {
     /// permutation of entry indices for the central directory (None = same order)
     pub cd_order: Option<Vec<usize>>,
     pub gap_before_cd: usize,
+    /// ZIP64 extensible data sector appended to the ZIP64 end record (APPNOTE 4.3.14; the size field grows with it)
+    pub zip64_ext: Vec<u8>,
 }
 
 #[derive(Clone, Debug, Default)]
@@ -308,14 +313,15 @@ pub fn build(spec: &Spec) -> (Vec<u8>, Layout) {
         p32(&mut out, d.crc);
         p32(&mut out, if e.zip64_central & 2 != 0 { 0xFFFF_FFFF } else { d.csize as u32 });
         p32(&mut out, if e.zip64_central & 1 != 0 { 0xFFFF_FFFF } else { d.usize_ as u32 });
-        p16(&mut out, e.name.len() as u16);
+        let cname: &[u8] = e.central_name.as_deref().unwrap_or(&e.name);
+        p16(&mut out, cname.len() as u16);
         p16(&mut out, cextra.len() as u16);
         p16(&mut out, e.comment.len() as u16);
         p16(&mut out, if e.zip64_central & 8 != 0 { 0xFFFF } else { 0 });
         p16(&mut out, 0);
         p32(&mut out, e.ext_attr);
         p32(&mut out, if e.zip64_central & 4 != 0 { 0xFFFF_FFFF } else { d.off as u32 });
-        out.extend_from_slice(&e.name);
+        out.extend_from_slice(cname);
         let cextra_pos = out.len() as u64;
         out.extend_from_slice(&cextra);
         out.extend_from_slice(&e.comment);
@@ -337,7 +343,7 @@ pub fn build(spec: &Spec) -> (Vec<u8>, Layout) {
         let zpos = out.len() as u64;
         lay.zip64_eocd_pos = Some(zpos);
         p32(&mut out, 0x06064b50);
-        p64(&mut out, 44);
+        p64(&mut out, 44 + spec.zip64_ext.len() as u64);
         p16(&mut out, 45);
         p16(&mut out, 45);
         p32(&mut out, 0);
@@ -346,6 +352,7 @@ pub fn build(spec: &Spec) -> (Vec<u8>, Layout) {
         p64(&mut out, n);
         p64(&mut out, cd_size);
         p64(&mut out, cd_off);
+        out.extend_from_slice(&spec.zip64_ext);
         lay.zip64_loc_pos = Some(out.len() as u64);
         p32(&mut out, 0x07064b50);
         p32(&mut out, 0);
@@ -409,6 +416,7 @@ impl Spec {
             "force_zip64_eocd": self.force_zip64_eocd,
             "cd_order": self.cd_order,
             "gap_before_cd": self.gap_before_cd,
+            "zip64_ext_len": self.zip64_ext.len(),
         })
     }
 }
@@ -462,7 +470,7 @@ impl ESpec {
             "local_extra": crate::util::hex(&self.local_extra), "central_extra": crate::util::hex(&self.central_extra),
             "comment": crate::util::hex(&self.comment), "made_by": self.made_by, "ext_attr": self.ext_attr,
             "time": self.time, "date": self.date, "enc": enc, "gap_before": self.gap_before, "extra_flags": self.extra_flags,
-            "crc_override": self.crc_override,
+            "crc_override": self.crc_override, "central_name": self.central_name.as_ref().map(|p| crate::util::hex(p)),
         })
     }
     pub fn from_json(v: &Value) -> ESpec {
@@ -500,6 +508,7 @@ impl ESpec {
             gap_before: v["gap_before"].as_u64().unwrap_or(0) as usize,
             extra_flags: v["extra_flags"].as_u64().unwrap_or(0) as u16,
             crc_override: v["crc_override"].as_u64().map(|x| x as u32),
+            central_name: v["central_name"].as_str().map(crate::util::unhex),
         }
     }
 }
@@ -508,7 +517,7 @@ impl Spec {
         json!({
             "prefix": big(&self.prefix), "entries": self.entries.iter().map(|e| e.to_json()).collect::<Vec<_>>(),
             "comment": big(&self.comment), "trailing": big(&self.trailing), "force_zip64_eocd": self.force_zip64_eocd,
-            "cd_order": self.cd_order, "gap_before_cd": self.gap_before_cd,
+            "cd_order": self.cd_order, "gap_before_cd": self.gap_before_cd, "zip64_ext": crate::util::hex(&self.zip64_ext),
         })
     }
     pub fn from_json(v: &Value) -> Spec {
@@ -520,6 +529,7 @@ impl Spec {
             force_zip64_eocd: v["force_zip64_eocd"].as_bool().unwrap_or(false),
             cd_order: v["cd_order"].as_array().map(|a| a.iter().map(|x| x.as_u64().unwrap_or(0) as usize).collect()),
             gap_before_cd: v["gap_before_cd"].as_u64().unwrap_or(0) as usize,
+            zip64_ext: crate::util::unhex(v["zip64_ext"].as_str().unwrap_or("")),
         }
     }
 }
